@@ -143,6 +143,15 @@ fn project_case(n: usize, p: &Project, wl: &[(String, Option<&str>)], sections: 
     a.evals += 1;
     let _ = run_cli(&sb.dir, &["run", "-j", "p.json", "-o", "outj.wsca"]); a.procs += 1;
     match (&want, sb.read("outj.wsca")) { (Ok(w), Some(g)) if g == w.join("\n") => a.ok += 1, (Err(_), None) => a.ok += 1, (w, g) => a.viols.push(Viol { key: key("run-json"), desc: format!("`asca run -j` wrote {:?}, the library gives {:?}", g, w), case: case() }) }
+    // the same in a directory that holds, besides the json, exactly one unrelated word file (left over from an earlier command): without -w the
+    // json's own words are the input, whatever else lies around
+    if let Some(pj) = sb.read("p.json") {
+        a.evals += 1;
+        sb.write("jonly/p.json", &pj);
+        sb.write("jonly/stray.wsca", "ki.ki\nko");
+        let _ = run_cli(&sb.dir.join("jonly"), &["run", "-j", "p.json", "-o", "outj.wsca"]); a.procs += 1;
+        match (&want, sb.read("jonly/outj.wsca")) { (Ok(w), Some(g)) if g == w.join("\n") => a.ok += 1, (Err(_), None) => a.ok += 1, (w, g) => a.viols.push(Viol { key: key("run-json-stray-word-file"), desc: format!("`asca run -j` in a directory that also holds one unrelated word file wrote {:?}, the library gives {:?} for the json's own words", g, w), case: case() }) }
+    }
     a.evals += 1;
     sb.write("other.wsca", "ta.pa\n\nˈpat   # x");
     let _ = run_cli(&sb.dir, &["run", "-j", "p.json", "-w", "other.wsca", "-o", "outjw.wsca"]); a.procs += 1;
